@@ -55,6 +55,9 @@ def handleL4 (req ans : String) : Verdict :=
       -- property-level verdicts that need no model: an accepted program never reaches an internal error,
       -- the emulator never aborts or hangs
       let exitS := fieldOf ans "exit"
+      -- open finding KF-MACRO-DEPTH: macro chains of hundreds of levels overflow the real stack
+      if (exitS == "signal" || exitS == "134") && (src.splitOn "macro ").length > 250 then
+        { model := ans, specOk := false, spec := "no abort", kf := "KF-MACRO-DEPTH", nontrivial := true } else
       let specOk := exitS != "101" && exitS != "signal" && exitS != "timeout" && exitS != "134"
         && ((realOut.splitOn "Internal Error").length == 1
             -- RET with an empty call stack is a reported run-time error (dynamic, not a static inconsistency)
